@@ -1,5 +1,179 @@
-/- Driver.Config — line protocol of the `config` sub-harness (stub until the unit is built). -/
-import Ioc.Basic
+/-
+  Driver.Config — line protocol of the `config` sub-harness (C15).
+
+    scenario := opt* "|" path*
+    opt      := "SL" n loader^n      app.SetConfigLoader(…)
+              | "AL" n loader^n      app.AddConfigLoader(…)
+              | "CA" n loader^n      option calling s.Configure.AddLoaders(…)
+              | "SC" n loader^n      app.SetConfigure(fresh configure with SetLoaders(…))
+              | "SF" loader          app.SetConfig(file)            (loader must be `f …`)
+    loader   := "r" out | "f" out | "p" int out | "o" int out       raw / file / Priority raw / Ordered raw
+              | "a" n (pathhex node)^n                              ArgsLoader with n `--app.config=path=value`
+    out      := "E" (no bytes) | "X" (LoadConfig fails) | node
+    node     := "M" n (keyhex node)^n | "L" n node^n | "P"hex (plain scalar) | "Q"hex (quoted string) | "N" (null)
+    path     := hex of the dotted path (`-` = the empty path)
+
+    output   := `err` | `panic` | one rendering per path, space separated:
+                `nil` | `s:<hex of %v text>` | `list[n](e,…)` | `map{k,…}` (hex keys, sorted; for the empty path
+                only keys below which viper.AllKeys finds a non-nil leaf)
+-/
+import Ioc.Config
 namespace Driver.Config
-def handle (_line : String) : String := "unimplemented"
+open Ioc Ioc.Config
+
+abbrev Toks := List String
+
+mutual
+def pNode : Nat → Toks → Option (Cfg × Toks)
+  | 0, _ => none
+  | _, [] => none
+  | f+1, tok :: rest =>
+    if tok = "N" then some (.scalar .null, rest)
+    else if tok = "M" then
+      match rest with
+      | n :: rest' => match n.toNat? with
+        | some k => (pKvs f k rest').map fun (kvs, r) => (.map kvs, r)
+        | none => none
+      | [] => none
+    else if tok = "L" then
+      match rest with
+      | n :: rest' => match n.toNat? with
+        | some k => (pList f k rest').map fun (l, r) => (.list l, r)
+        | none => none
+      | [] => none
+    else match tok.toList with
+      | 'P' :: h => (fromHex (String.ofList h)).map fun b => (.scalar (.val b), rest)
+      | 'Q' :: h => (fromHex (String.ofList h)).map fun b => (.scalar (.val b), rest)
+      | _ => none
+def pKvs : Nat → Nat → Toks → Option (Kvs × Toks)
+  | _, 0, toks => some ([], toks)
+  | 0, _, _ => none
+  | f+1, k+1, key :: toks =>
+    match fromHex key, pNode f toks with
+    | some kb, some (v, r) => (pKvs f k r).map fun (kvs, r') => ((kb, v) :: kvs, r')
+    | _, _ => none
+  | _, _, [] => none
+def pList : Nat → Nat → Toks → Option (List Cfg × Toks)
+  | _, 0, toks => some ([], toks)
+  | 0, _, _ => none
+  | f+1, k+1, toks =>
+    match pNode f toks with
+    | some (v, r) => (pList f k r).map fun (l, r') => (v :: l, r')
+    | none => none
+end
+
+def splitDots (s : Bytes) : List Bytes :=
+  let step := fun (b : UInt8) (acc : List Bytes) =>
+    if b = 46 then [] :: acc else
+    match acc with
+    | [] => [[b]]
+    | cur :: more => (b :: cur) :: more
+  s.foldr step [[]]
+
+def pOut (fuel : Nat) : Toks → Option (Out × Toks)
+  | "E" :: r => some (.empty, r)
+  | "X" :: r => some (.fail, r)
+  | toks => (pNode fuel toks).map fun (c, r) => (.doc c, r)
+
+def pPairs : Nat → Nat → Toks → Option (List (Path × Cfg) × Toks)
+  | _, 0, toks => some ([], toks)
+  | 0, _, _ => none
+  | f+1, k+1, p :: toks =>
+    match fromHex p, pNode f toks with
+    | some pb, some (v, r) => (pPairs f k r).map fun (ps, r') => ((splitDots pb, v) :: ps, r')
+    | _, _ => none
+  | _, _, [] => none
+
+/-- one loader; `id` numbers the loaders of a scenario -/
+def pLoader (fuel id : Nat) : Toks → Option (Loader × Toks)
+  | "r" :: r => (pOut fuel r).map fun (o, r') => (⟨id, .plain, o⟩, r')
+  | "f" :: r => (pOut fuel r).map fun (o, r') => (fileLoader id o, r')
+  | "p" :: k :: r => match k.toInt? with
+    | some ki => (pOut fuel r).map fun (o, r') => (⟨id, .prio ki, o⟩, r')
+    | none => none
+  | "o" :: k :: r => match k.toInt? with
+    | some ki => (pOut fuel r).map fun (o, r') => (⟨id, .ord ki, o⟩, r')
+    | none => none
+  | "a" :: n :: r => match n.toNat? with
+    | some k => (pPairs fuel k r).map fun (ps, r') => (⟨id, .plain, argsOut ps⟩, r')
+    | none => none
+  | _ => none
+
+def pLoaders (fuel : Nat) : Nat → Nat → Toks → Option (List Loader × Nat × Toks)
+  | 0, id, toks => some ([], id, toks)
+  | k+1, id, toks =>
+    match pLoader fuel id toks with
+    | some (l, r) => (pLoaders fuel k (id+1) r).map fun (ls, id', r') => (l :: ls, id', r')
+    | none => none
+
+def pOpts : Nat → Nat → Toks → Option (List Opt × Toks)
+  | 0, _, _ => none
+  | _, _, [] => none
+  | f+1, id, tok :: rest =>
+    if tok = "|" then some ([], rest)
+    else if tok = "SF" then
+      match pLoader (f+1) id rest with
+      | some (l, r) => (pOpts f (id+1) r).map fun (os, r') => (.setConfig l :: os, r')
+      | none => none
+    else
+      match rest with
+      | n :: rest' =>
+        match n.toNat? with
+        | some k =>
+          match pLoaders (f+1) k id rest' with
+          | some (ls, id', r) =>
+            let mk : Option Opt :=
+              if tok = "SL" then some (.setLoaders ls) else if tok = "AL" then some (.addLoaders ls)
+              else if tok = "CA" then some (.configureAdd ls) else if tok = "SC" then some (.setConfigure ls) else none
+            match mk with
+            | some o => (pOpts f id' r).map fun (os, r') => (o :: os, r')
+            | none => none
+          | none => none
+        | none => none
+      | [] => none
+
+def insertKey (k : Key) : List Key → List Key
+  | [] => [k]
+  | y :: ys => if bytesLt k y then k :: y :: ys else y :: insertKey k ys
+
+def sortKeys (l : List Key) : List Key := l.foldl (fun acc k => insertKey k acc) []
+
+def showKeys (ks : List Key) : String := "map{" ++ joinWith "," ((sortKeys ks).map toHex) ++ "}"
+
+mutual
+def render : Cfg → String
+  | .scalar .null => "nil"
+  | .scalar (.val b) => "s:" ++ toHex b
+  | .list l => "list[" ++ toString l.length ++ "](" ++ joinWith "," (renderList l) ++ ")"
+  | .map kvs => showKeys (keysOf kvs)
+def renderList : List Cfg → List String
+  | [] => []
+  | c :: rest => render c :: renderList rest
+end
+
+/-- ViperBinder.Get: "" → AllSettings (rebuilt from AllKeys), otherwise Viper.Get(lower-cased path) -/
+def query (c : Cfg) (p : Bytes) : String :=
+  if p.isEmpty then
+    match c with
+    | .map kvs => showKeys (keysOf (kvs.filter fun kv => hasLeaf kv.2))
+    | _ => "nil"
+  else
+    match c.get ((splitDots p).map lower) with
+    | none => "nil"
+    | some v => render v
+
+def handle (line : String) : String :=
+  let toks := line.splitOn " "
+  let fuel := 2 * toks.length + 4
+  match pOpts fuel 1 toks with
+  | none => "bad-line"
+  | some (opts, pathToks) =>
+    match pathToks.mapM fromHex with
+    | none => "bad-line"
+    | some paths =>
+      match loadAll (applyOptions opts) with
+      | .error true => "panic"
+      | .error false => "err"
+      | .ok c => joinWith " " (paths.map (query c))
+
 end Driver.Config
